@@ -115,9 +115,11 @@ def main():
         else:
             shutil.copy(src, dst)
     ct = os.path.join(st, "harness", "Cargo.toml")
-    open(ct, "w").write(open(ct).read().replace('"/repo/', '"%s/' % repo))
+    txt = open(ct).read().replace('"/repo/', '"%s/' % repo)
+    open(ct, "w").write(txt)
     cc = os.path.join(st, "harness", ".cargo", "config.toml")
-    open(cc, "w").write(open(cc).read().replace("/verif/target", os.path.join(st, "target")))
+    txt = open(cc).read().replace("/verif/target", os.path.join(st, "target"))
+    open(cc, "w").write(txt)
     env = dict(os.environ, VERIF_ROOT=st, VERIF_REPO=repo, CARGO_TARGET_DIR=os.path.join(st, "target"), CARGO_NET_OFFLINE="true")
     renv = dict(os.environ, CARGO_TARGET_DIR=os.path.join(st, "repo-target"), CARGO_NET_OFFLINE="true")
     allsites = sites(repo)
@@ -172,6 +174,8 @@ def main():
                     break
                 if rc == 2:
                     res.setdefault("machinery_errors", []).append(c)
+        if res["status"] == "SURVIVED" and res.get("machinery_errors"):
+            res["status"] = "machinery-error"
         res["seconds"] = round(time.time() - t0, 1)
         report["results"].append(res)
         print(res["status"], rel, li + 1, repr(old), "->", repr(new), res.get("detected_by", ""), res["seconds"], flush=True)
